@@ -102,6 +102,9 @@ impl<'tcx> Cx<'tcx> {
                 .unwrap_or_default();
             fields.push(("macro", s(mname)));
             fields.push(("macro_crate", s(mcrate)));
+            // all macros the span was expanded through, innermost first (debug_assert! is assert! inside `if cfg!(debug_assertions)`)
+            let chain: Vec<J> = sp.macro_backtrace().map(|e| s(e.kind.descr().to_string())).collect();
+            fields.push(("macros", J::Arr(chain)));
             // the outermost call site in user code
             let cs = sp.source_callsite();
             let lo2 = sm.lookup_char_pos(cs.lo());
